@@ -35,9 +35,9 @@ def check_commit_discipline(prog, rep, prop="C06"):
     """C06-D1 (a)-(f).  Returns the dict of DML sites per method for reuse."""
     cls = prog.cls("SqliteStorage")
     sites = sql_sites(prog)
-    rep.floor("sqlite execute sites", len(sites), 20)
+    rep.floor("sqlite execute sites", len(sites), 14)
     dml = [s for s in sites if s.stmt.is_dml]
-    rep.floor("sqlite DML sites", len(dml), 8)
+    rep.floor("sqlite DML sites", len(dml), 6)
     by_method = {}
     for s in dml:
         if s.fi.cls is not cls:
@@ -405,6 +405,100 @@ def check_age_test(prog, rep):
     init = cls.methods.get("__init__")
     istamps = [n for n in walk_own(init.node) if isinstance(n, ast.Assign) and any(norm(t) == "self.last_commit" for t in n.targets)]
     rep.check(bool(istamps), "AGE-STAMP", init.short, "self.last_commit", "initialised", "self.last_commit is never initialised", init.loc())
+    # one clock: the instant the age is measured from and the instant it is measured at must come from the same clock
+    kinds = {}
+    for n in good:
+        kinds[f"age test ({fi.short})"] = _clock_kinds(n.ast, fi)
+    for st_, f_ in [(x, cfi) for x in stamps] + [(x, init) for x in istamps]:
+        kinds[f"stamp ({f_.short}:{st_.lineno})"] = _clock_kinds(st_.value, f_)
+    distinct = {frozenset(v) for v in kinds.values()}
+    rep.check(len(distinct) == 1 and all(len(v) == 1 for v in kinds.values()), "AGE-STAMP", fi.short, "one clock", f"{sorted(next(iter(distinct)))}" if distinct else "", f"the age is the difference of readings of different clocks {({k: sorted(v) for k, v in kinds.items()})}: local wall time and UTC differ by the UTC offset, so the computed age is hours off (east of UTC it never exceeds the threshold and buffered writes are not flushed by age; west of UTC every write commits)", fi.loc(), expected="the same clock call in the stamps and in the age test", found=str({k: sorted(v) for k, v in kinds.items()}))
+
+
+def check_no_rollback(prog, rep, rule="NO-ROLLBACK"):
+    """the lazily-committing store keeps acknowledged writes of *all* buckets in one open transaction: nothing may roll it back"""
+    cls = prog.cls("SqliteStorage")
+    rep.rule(rule, "no construct in aw_datastore can roll back the sqlite connection's open transaction: no .rollback() call, no `with <connection>` block (sqlite3 rolls back on an exception and commits behind commit()'s back otherwise), no executescript(); acknowledged but not yet committed writes of other operations and other buckets live in that transaction")
+    n = 0
+    for f2 in prog.funcs.values():
+        if not f2.mod.name.startswith("aw_datastore"):
+            continue
+        n += 1
+        aliases = {"self.conn"}
+        for x in walk_own(f2.node):
+            if isinstance(x, ast.Assign) and norm(x.value) == "self.conn":
+                aliases |= {norm(t) for t in x.targets}
+        for x in walk_with_nested_exprs(f2.node):
+            if isinstance(x, ast.Call) and isinstance(x.func, ast.Attribute) and x.func.attr == "rollback" and "db" not in norm(x.func.value).split(".")[-1:]:
+                rep.violation(rule, f2.short, "rollback()", f"`{norm(x)}` discards every write acknowledged since the last commit, including those of other operations and other buckets", f2.loc(x))
+            if isinstance(x, ast.Call) and isinstance(x.func, ast.Attribute) and x.func.attr == "executescript":
+                rep.violation(rule, f2.short, "executescript()", "executescript() commits the open transaction behind commit()'s back", f2.loc(x))
+            if isinstance(x, (ast.With, ast.AsyncWith)) and f2.cls is cls:
+                for it in x.items:
+                    if norm(it.context_expr) in aliases:
+                        rep.violation(rule, f2.short, f"with {norm(it.context_expr)}", f"`with {norm(it.context_expr)}:` makes sqlite3 roll the whole open transaction back when the block raises (and commit it, without resetting the counters, when it does not): an error in this operation discards earlier acknowledged writes of other operations and other buckets", f2.loc(x))
+    rep.ok(rule, "aw_datastore", "scan", f"{n} functions scanned", None)
+
+
+def check_fresh_age(prog, rep):
+    """the age is measured from the previous flush: an event write must not flush (and re-stamp) before it writes"""
+    from .sqlmodel import sql_sites
+
+    cls = prog.cls("SqliteStorage")
+    rep.rule("AGE-FRESH", "in an event write (insert_one, insert_many, replace, replace_last, delete) no call that commits unconditionally (self.commit() or a method of the class that calls it, e.g. the read-your-writes commit of the readers) can be followed by a statement or delegated write of the same operation: such a flush re-stamps last_commit just before the write, so the age test that follows always sees a fresh stamp and the write itself stays buffered however late it comes")
+    # methods that commit outright (not through conditional_commit)
+    committers = {"commit"}
+    changed = True
+    while changed:
+        changed = False
+        for name, fi in cls.methods.items():
+            if name in committers or name == "conditional_commit":
+                continue
+            if any(self_calls(fi, c) for c in committers):
+                committers.add(name)
+                changed = True
+    dml = {}
+    for s_ in sql_sites(prog):
+        if s_.fi.cls is cls and s_.stmt.kind in ("insert", "update", "delete"):
+            dml.setdefault(s_.fi.name, []).append(s_.call)
+    n = 0
+    for m in EVENT_LEVEL_EXPECTED:
+        fi = cls.methods.get(m)
+        if fi is None:
+            continue
+        g = cfg_of(fi)
+        flushes = [c for name in committers for c in self_calls(fi, name)]
+        writes = list(dml.get(m, [])) + self_calls(fi, "conditional_commit") + [c for w in EVENT_LEVEL_EXPECTED for c in self_calls(fi, w)]
+        wn = {g.node_of(c) for c in writes}
+        for c in flushes:
+            n += 1
+            after = g.reach_avoiding([g.node_of(c)])
+            hit = sorted(after & wn)
+            rep.check(not hit, "AGE-FRESH", fi.short, f"self.{c.func.attr}() before the write", "no flush precedes the write of the same operation", f"self.{c.func.attr}() commits (and stamps last_commit) before the write at line {g.nodes[hit[0]].line if hit else '?'}: the age test after the write then always sees an age of ~0 s, so a write issued long after the previous flush returns un-flushed", fi.loc(c))
+        if not flushes:
+            rep.ok("AGE-FRESH", fi.short, "no flush before the write", f"calls none of {sorted(committers)}", fi.loc())
+    rep.extra["unconditional_committers"] = sorted(committers)
+
+
+def _clock_kinds(e, fi):
+    """normalised texts of the clock reads an expression is built from (single-def locals expanded)"""
+    from .affine import CLOCK_CALLS
+
+    out = set()
+    seen = set()
+
+    def rec(x, depth=0):
+        for n in ast.walk(x):
+            if isinstance(n, ast.Call) and norm(n.func) in CLOCK_CALLS:
+                out.add(norm(n).replace("datetime.datetime.", "datetime."))
+            elif isinstance(n, ast.Name) and n.id not in seen and depth < 4:
+                seen.add(n.id)
+                v = single_def(fi, n.id)
+                if v is not None:
+                    rec(v, depth + 1)
+
+    rec(e)
+    return out
 
 
 def _deep_text(e, fi):
